@@ -88,10 +88,25 @@ def build_harness(variant, log):
         if s == "worlds.cpp":
             continue
         jobs.append((s, cxx + ["-c", os.path.join(QSIM, s), "-o", os.path.join(d, s.replace(".cpp", ".o"))]))
+    degraded = []
+
+    def compile_one(j):
+        r = sh(j[1])
+        if r.returncode != 0 and j[0].startswith("w_"):
+            # degrade, don't false-alarm (DESIGN 2.9): a tree that renamed a private field the adapter reads is still checked
+            # through the API-level oracles; the structure checker of that world is compiled out
+            log.write("== %s does not compile with the structure checker:\n%s\n" % (j[0], r.stdout[-2000:]))
+            r2 = sh(j[1] + ["-DQSIM_STRUCT=0"])
+            if r2.returncode == 0:
+                degraded.append(j[0])
+                return (j[0], r2)
+        return (j[0], r)
     with ThreadPoolExecutor(NCPU) as ex:
-        res = list(ex.map(lambda j: (j[0], sh(j[1])), jobs))
+        res = list(ex.map(compile_one, jobs))
     objs, mask, notes = [], 0, []
     world_of = {s: (n, bit) for (n, bit, s) in present}
+    for s in degraded:
+        notes.append("structure_oracle unavailable for world %s: private fields it reads do not exist in this tree; API-level oracles only" % world_of[s][0])
     for s, r in res:
         if r.returncode != 0:
             if s in world_of:
